@@ -26,9 +26,9 @@ def CrashSafeRecovery (env : Env) (g : Geo) (img : List Cell) (ws : List (Sys Ce
 structure IsRecoveryRun (env : Env) (g : Geo) (img : List Cell) (ws : List (Sys Cell)) : Prop where
   shape : ∃ sentOff sent payloads truncTo segments growTo tocOff toc footer h1 h2,
     ws = recoverProto 0 sentOff sent payloads truncTo segments growTo tocOff toc footer h1 h2
-  needed : ∃ fs n v, recover env g img = .ok fs (n + 1) v
+  needed : ∃ fs n v c, recover env g img = .ok fs (n + 1) v c
   complete : (recover env g (applyAll img ws)).logical = (recover env g img).logical
-  settled : ∃ fs v, recover env g (applyAll img ws) = .ok fs 0 v
+  settled : ∃ fs v c, recover env g (applyAll img ws) = .ok fs 0 v c
 
 /-- the crash-safety clause of C04 at full strength -/
 def C04_full : Prop :=
@@ -67,15 +67,15 @@ def tws : List (Sys Cell) :=
 theorem toy_is_recovery_run : IsRecoveryRun tenv tg timg tws := by
   refine ⟨⟨5, zeroCells 1, [(10, objCells 20 2)], some 12, [], none, 12, objCells 32 4, objCells 33 2,
            objCells 2 2, objCells 3 2, rfl⟩, ?_, ?_, ?_⟩
-  · exact ⟨[{ status := 0, sum := 10, readable := true }, { status := 0, sum := 20, readable := true }], 0, false,
+  · exact ⟨[{ status := 0, sum := 10, readable := true }, { status := 0, sum := 20, readable := true }], 0, false, 1,
            by decide⟩
   · decide
-  · exact ⟨[{ status := 0, sum := 10, readable := true }, { status := 0, sum := 20, readable := true }], false,
+  · exact ⟨[{ status := 0, sum := 10, readable := true }, { status := 0, sum := 20, readable := true }], false, 2,
            by decide⟩
 
 /-- the uninterrupted recovery: the committed frame and the replayed one, both readable -/
 example : recover tenv tg timg
-    = .ok [{ status := 0, sum := 10, readable := true }, { status := 0, sum := 20, readable := true }] 1 false := by
+    = .ok [{ status := 0, sum := 10, readable := true }, { status := 0, sum := 20, readable := true }] 1 false 1 := by
   decide
 
 /-- crash after the first replayed payload write (prefix 3): the payload went over the old TOC, the
@@ -88,7 +88,7 @@ theorem C04_recover_counterexample_toc :
 theorem C04_recover_counterexample_dup :
     recover tenv tg (applyAll timg (tws.take 9))
       = .ok [{ status := 0, sum := 10, readable := true }, { status := 0, sum := 20, readable := true },
-             { status := 0, sum := 20, readable := true }] 1 false := by decide
+             { status := 0, sum := 20, readable := true }] 1 false 2 := by decide
 
 theorem C04_counterexample : ¬ C04_full := by
   intro h
@@ -102,7 +102,7 @@ theorem C04_counterexample : ¬ C04_full := by
     harness checks the same on every recovered real file). -/
 theorem C04_reopen_stable :
     (recover tenv tg (applyAll timg tws)).logical = (recover tenv tg timg).logical ∧
-    ∃ fs v, recover tenv tg (applyAll timg tws) = .ok fs 0 v :=
+    ∃ fs v c, recover tenv tg (applyAll timg tws) = .ok fs 0 v c :=
   ⟨toy_is_recovery_run.complete, toy_is_recovery_run.settled⟩
 
 end Mv.Crash
